@@ -155,7 +155,7 @@ def cmd_run(a):
 
 def cmd_import(a):
     """Copy a sub-agent's deliverable (/tmp/seedout/<Cnn>/<X>) to seeded/<Cnn>-<X>."""
-    src = os.path.join("/tmp/seedout", a.prop, a.variant)
+    src = os.path.join("/tmp/seedout2" if a.variant == "C" else "/tmp/seedout", a.prop, a.variant)
     d = os.path.join(SEEDED, "%s-%s" % (a.prop, a.variant))
     os.makedirs(d, exist_ok=True)
     shutil.copyfile(os.path.join(src, "patch.diff"), os.path.join(d, "patch.diff"))
